@@ -803,7 +803,12 @@ class CSSStyleSheet(cssutils.stylesheets.StyleSheet):
                 # no doublettes
                 self._cssRules.insert(index, rule)
                 if _clean:
-                    self._cleanNamespaces()
+                    try:
+                        self._cleanNamespaces()
+                    except xml.dom.DOMException:
+                        # the rule would override a namespace which is in use
+                        self._cssRules.remove(rule)
+                        raise
 
         # @variables
         elif rule.type == rule.VARIABLES_RULE:
